@@ -1,7 +1,8 @@
 """C17 t-digest: bookkeeping and guard clauses that are visible in the shape of the code (thin structural clauses).
 Decided: weight accounting of update / merge / compress, monotone maintenance of the exact extremes, protection of the extreme
 centroids, rejection of NaN and of invalid queries, clamps of rank and quantile at the extremes, CDF/PMF assembly.
-Not decided: the interpolation arithmetic, monotonicity of rank/quantile between centroids, the centroid-count bound, accuracy."""
+Not decided: the interpolation arithmetic beyond its direction (interpolation_direction), monotonicity of rank between centroids, the
+centroid-count bound, accuracy."""
 from astu import C, ctxt, gt_pair, eq_const, reach, reach_txt, ctext, strip, strip_all, walk, walkp, txt, short, is_this_field, stmts_of, always_throws, functions_by, local_decls
 from vlib.core import ob
 
